@@ -18,7 +18,7 @@ def run(kind, K, X, Y, batches, choices, precision, threads):
 
 def make_data(rnd, tkind, K, n, S=3, kind='SNR'):
     if tkind == 'int': X = np.array([[rnd.randint(-100, 100) for _ in range(S)] for _ in range(n)], dtype='int16')
-    elif tkind == 'f32off': X = (np.array([[rnd.randint(0, 2047) / 1024.0 for _ in range(S)] for _ in range(n)]) + 1000).astype('float32')
+    elif tkind == 'f32off': X = (np.array([[rnd.random() * 2 for _ in range(S)] for _ in range(n)]) + 1000).astype('float32')      # full 24-bit mantissas: a float32 sum of two samples already rounds
     elif tkind == 'f32': X = np.array([[rnd.randint(-64, 64) / 8.0 for _ in range(S)] for _ in range(n)], dtype='float32')
     else: X = (np.array([[rnd.randint(0, 2047) / 1024.0 for _ in range(S)] for _ in range(n)]) + 1000).astype('float64')
     Y = np.array([[rnd.randrange(K + (2 if rnd.random() < 0.3 else 0)) for _ in range(1 if kind == 'TB' else 2)] for _ in range(n)], dtype='uint8')
